@@ -387,6 +387,13 @@ def unit_local_module_import():
                      sid="U/local_module_import", key="module_imported_inside_function")
 
 
+def unit_local_module_import_hof():
+    """import vh (module level); inside the body: import vh.hmod; call0(vh.hmod.h1) - the function is handed over by name"""
+    extra = [{"name": "h1", "module": "H:hmod", "params": [], "body": []}]
+    return _scaffold([{"k": "hof", "fn": "h1", "form": "local_module_import"}], extra_funcs=extra, eps=[{"id": "tag:h1", "kind": "body_tag", "n": 2}],
+                     sid="U/local_module_import_hof", key="module_imported_inside_function|hof")
+
+
 def unit_result_crlf():
     """a kept text result that contains carriage returns (CSV text): the value read back from a file store must be the same"""
     s = _scaffold([], eps=[{"id": "tag:K", "kind": "body_tag", "n": 2}, {"id": "tag:Kd", "kind": "body_tag", "n": 1}], sid="U/result_crlf", key="result_with_carriage_returns")
@@ -454,7 +461,7 @@ def unit_programs(level="quick"):
     out += [unit_shadow(h) for h in ("lambda_assigned", "nested_def_param")]
     out += [unit_shadow_and_use(h, w) for h in ("lambda_assigned", "nested_def_param", "listcomp") for w in ("var", "fn")]
     out += [unit_class_attr(), unit_local_import(), unit_inherited()]
-    out += [unit_local_module_import(), unit_result_crlf(), unit_nested_rt_keep_in_datafn()]
+    out += [unit_local_module_import(), unit_local_module_import_hof(), unit_result_crlf(), unit_nested_rt_keep_in_datafn()]
     # the same shapes with functions that mention no name of a non-accepted module at all (every generated function logs through
     # the non-accepted module pipelog, which gives each of them an external dependency: here the dependent ones have none)
     base = unit_body_self() + [unit_body(p) for p in ("helper1", "helper2", "helper3", "method", "hof")] + [unit_var("int", "name", "helper2")]
